@@ -307,7 +307,7 @@ def run_cases(ctx, binpath, cases, tag="ctl", queries=None, workers=12):
     return res, outs
 
 
-ORACLES = ["C02", "C03", "C04", "C05", "C09", "C13", "C18", "C01", "C16"]
+ORACLES = ["C02", "C03", "C04", "C05", "C09", "C13", "C18", "C01", "C16", "C07"]
 
 
 def parse_bad(res):
